@@ -99,7 +99,7 @@ def unsupported (k : CollCase) (seq : Bool) (inSize outSize : Nat) : Bool :=
     | "red", form =>
       if (redOp k.ty k.fn).isNone then true
       else if form == "sc" then !(k.n == 1 && isNamed k.fn)
-      else !(form == "ip" || form == "io")
+      else !(form == "ip" || form == "io" || (form == "ar" && isNamed k.fn))
     | "bcast", "ptr" | "gather", "ptr" | "gatherv", "ptr" | "scatter", "ptr" | "scatterv", "ptr" | "allgather", "ptr"
     | "allgatherv", "ptr" => false
     | _, _ => true
@@ -263,7 +263,7 @@ def parseItem (t : String) : Option (Option (It × De)) :=   -- none = bad-op, s
       | "s" => if src.length = e && dst.length = e then some (some (.stat tm 1 src, .stat tm 1 dst)) else none
       | "a" => if isLight ty then some none
                else if src.length = 3 * e && dst.length = 3 * e then some (some (.stat tm 3 src, .stat tm 3 dst)) else none
-      | "v" => if ty == "char" then some none
+      | "v" => if ty == "char" || ty == "bool" then some none
                else some (some (.dyn tm (src.length / e) src, .dyn tm (List.replicate e 0) dst))
       | "t" => if ty != "char" then some none
                else some (some (.dyn tm (src.length / e) src, .dyn tm (List.replicate e 0) dst))
@@ -333,7 +333,7 @@ def tmapOf (ty : String) (lay : List Nat) : Option TMap :=
   | "uchar", [s] | "short", [s] | "ushort", [s] | "uint", [s] | "ulong", [s] | "float", [s] | "ldouble", [s]
   | "cfloat", [s] | "cldouble", [s] => some (basic s)
   -- no MPITraits specialisation: `sizeof(T)` bytes
-  | "llong", [s] | "pod", [s] => some (contiguous s (basic 1))
+  | "llong", [s] | "bool", [s] | "schar", [s] | "ullong", [s] | "pod", [s] => some (contiguous s (basic 1))
   | "fv3", [d, n, w] | "fv2", [d, n, w] => some (fieldVector d n (basic w))
   | "big96", [d, n, w] | "big40", [d, n, w] => some (bigUnsigned d n (basic w))
   | "pair", [o1, s1, o2, s2, size] | "pairis", [o1, s1, o2, s2, size] => some (pair o1 (basic s1) o2 (basic s2) size)
